@@ -383,7 +383,10 @@ def _shrink_candidates(spec):
 # ------------------------------------------------------------------------------------------------
 # C05: abstract designs, independent writer, expected structure
 # ------------------------------------------------------------------------------------------------
-RISKY_C05 = ['design_undeclared', 'glob_net_name', 'amp_bus_ident', 'duplicate_bit', 'escaped_bus_name']
+RISKY_C05 = ['design_undeclared', 'glob_net_name', 'amp_bus_ident', 'duplicate_bit', 'escaped_bus_name',
+             'bare_instance', 'array_size_zero', 'second_design', 'missing_parens', 'trailing_tokens']
+# texts of these kinds must be refused by the reader
+REJECT_C05 = ('design_undeclared', 'bare_instance', 'array_size_zero', 'second_design', 'missing_parens', 'trailing_tokens')
 
 IDENT_POOL = ['a', 'b', 'clk', 'rst', 'din', 'dout', 'q', 'sel', 'U', 'net', 'Sig', 'x1', 'n_2', 'CE', 'lut']
 
@@ -562,11 +565,17 @@ def gen_design(rng, risky=None, size=1.0):
             libs[li]['cells'].append(c)
             declared.append((li, c))
     top_li, top = declared[-1]
+    if rng.random() < 0.4:
+        top_li, top = rng.choice(declared)          # any declared cell can be the design's cell
     design = {'name': _named(rng, set(), rename, 'D'), 'libraries': libs, 'case': case,
               'design': dict(_named(rng, set(), rename, 'T'), lib=top_li, cell=top['ident'],
                              cell_written=_vary(rng, top['ident'], case), lib_written=_vary(rng, libs[top_li]['ident'], case)),
               'expect': 'accept',
               'status': rng.random() < 0.5, 'risky': risky}
+    # the design construct stands anywhere after the library of its cell (libraries may follow it) and
+    # may carry properties / comments of its own (the reader does not keep them)
+    design['design']['after_lib'] = rng.randint(top_li, nlibs - 1) if rng.random() < 0.6 else nlibs - 1
+    design['design']['extras'] = rng.choice([[], [], ['property'], ['property', 'comment', 'property'], ['comment']])
     if risky:
         apply_risky_c05(design, rng, risky)
     return design
@@ -574,13 +583,29 @@ def gen_design(rng, risky=None, size=1.0):
 
 def apply_risky_c05(design, rng, risky):
     cells = [c for L in design['libraries'] for c in L['cells']]
+    if risky in REJECT_C05:
+        design['expect'] = 'reject'
     if risky == 'design_undeclared':
         # the design construct names a cell / library that is not declared: must be rejected
-        design['expect'] = 'reject'
         if rng.random() < 0.5:
             design['design']['cell_written'] = 'nosuchcell'
         else:
             design['design']['lib_written'] = 'nosuchlib'
+    elif risky == 'bare_instance':
+        # an instance without viewRef (falls back to a second design construct when there is no instance)
+        xs = [x for c in cells for x in c['instances']]
+        if xs:
+            rng.choice(xs)['bare'] = True
+        else:
+            design['damage'] = 'second_design'
+    elif risky == 'array_size_zero':
+        ps = [p for c in cells for p in c['ports']]
+        if ps:
+            rng.choice(ps)['size_written'] = rng.choice(['0', '0', '-1', '-3'])
+        else:
+            design['damage'] = 'second_design'
+    elif risky in ('second_design', 'missing_parens', 'trailing_tokens'):
+        design['damage'] = risky
     elif risky == 'glob_net_name':
         for c in cells:
             buses = sorted(set(n['bus']['name'] for n in c['nets'] if n['bus']))
@@ -695,7 +720,9 @@ def render(design, rng):
         return w.form(*items)
 
     def port(p):
-        if p['array']:
+        if p.get('size_written') is not None:
+            nd = w.form(w.kw('array'), namedef(p), p['size_written'])
+        elif p['array']:
             nd = w.form(w.kw('array'), namedef(p), str(p['width']))
         else:
             nd = namedef(p)
@@ -706,7 +733,9 @@ def render(design, rng):
         cr = [w.kw('cellRef'), x['cell_written']]
         if x['libref']:
             cr.append(w.form(w.kw('libraryRef'), x['lib_written']))
-        items = [w.kw('instance'), namedef(x), w.form(w.kw('viewRef'), x['view_written'], w.form(*cr))]
+        items = [w.kw('instance'), namedef(x)]
+        if not x.get('bare'):
+            items.append(w.form(w.kw('viewRef'), x['view_written'], w.form(*cr)))
         for p in x['properties']:
             items.append(prop(p))
             if rng.random() < 0.05:
@@ -751,13 +780,33 @@ def render(design, rng):
         top.append(w.form('status', w.form('written', w.form('timeStamp', '2024', '1', '2', '3', '4', '5'),
                                            w.form('program', qstr('indep'), w.form('version', qstr('1.0'))),
                                            comment('status comment'))))
-    for L in design['libraries']:
+    d = design['design']
+
+    def design_form(dd):
+        items = [w.kw('design'), namedef(dd), w.form(w.kw('cellRef'), d['cell_written'], w.form(w.kw('libraryRef'), d['lib_written']))]
+        for k, e in enumerate(d.get('extras', [])):
+            items.append(comment('in the design') if e == 'comment' else
+                         w.form(w.kw('property'), 'part%d' % k, w.form('string', qstr('xc7a35t'))))
+        return w.form(*items)
+    nlibs = len(design['libraries'])
+    after = d.get('after_lib', nlibs - 1)
+    for li, L in enumerate(design['libraries']):
         top.append(library(L))
         if rng.random() < 0.1:
             top.append(comment('between libraries'))
-    d = design['design']
-    top.append(w.form(w.kw('design'), namedef(d), w.form(w.kw('cellRef'), d['cell_written'], w.form(w.kw('libraryRef'), d['lib_written']))))
-    return w.form(*top) + rng.choice(['', '\n', '\n\n'])
+        if li == after:
+            top.append(design_form(d))
+    damage = design.get('damage')
+    if damage == 'second_design':
+        top.append(design_form({'ident': 'second_top', 'orig': None}))
+    text = w.form(*top)
+    if damage == 'missing_parens':
+        text = text.rstrip()
+        for _ in range(rng.choice([1, 2, 2, 3])):
+            text = text[:text.rindex(')')].rstrip()
+    elif damage == 'trailing_tokens':
+        text += ' ' + rng.choice(['garbage', ')', '))', '(comment "after the end")', '"a string"', '(', '0'])
+    return text + rng.choice(['', '\n', '\n\n'])
 
 
 # ---- what the text declares ---------------------------------------------------------------------
